@@ -1,10 +1,10 @@
 package main
 
 import (
-	"bytes"
 	"fmt"
 	"net"
 	"os"
+	"regexp"
 	"strings"
 	"sync"
 	"time"
@@ -35,6 +35,11 @@ type c25Case struct {
 	Fields   []e2e.HF `json:"fields"` // extra header fields (raw)
 	Body     string   `json:"body"`
 	Hostile  string   `json:"hostile"` // which ingredient is hostile (for signatures)
+	// byte-splice family (c25bytes.go): position, byte class, place, the byte(s) in hex
+	Pos     string `json:"pos,omitempty"`
+	Class   string `json:"class,omitempty"`
+	Place   string `json:"place,omitempty"`
+	ByteHex string `json:"byte_hex,omitempty"`
 }
 
 type c25Accepted struct {
@@ -222,7 +227,8 @@ func c25NormValue(v string) string {
 }
 
 func c25(r *vkit.Run) {
-	r.SetRule("full in-process BFE (HTTP + HTTPS with ALPN h2 and spdy/3.1), backend keep-alive off so each forwarded request has its own backend connection whose complete byte stream is captured; requests arrive over HTTP/1.1 (raw bytes), HTTP/2 (x/net framer + HPACK literals with arbitrary name/value bytes) and SPDY/3.1 (raw header block), carrying benign fields plus one hostile ingredient: header names with CR LF / LF / space / colon / NUL / DEL / obs-text, values with CRLF / LF / CR / CRLFCRLF+second request / NUL / CTL / DEL / obs-text, and method / path / host pseudo-headers with embedded request lines; oracle = strict RFC 7230 reference parse of the backend byte stream: exactly one request consuming all bytes, then method/target/host/fields/body compared with what a harness filter saw bfe accept. Non-trivial = hostile ingredient present and the request reached a backend; distinct = (frontend, hostile ingredient, method)")
+	r.SetRule("full in-process BFE (HTTP + HTTPS with ALPN h2 and spdy/3.1), backend keep-alive off so each forwarded request has its own backend connection whose complete byte stream is captured; requests arrive over HTTP/1.1 (raw bytes), HTTP/2 (x/net framer + HPACK literals with arbitrary name/value bytes) and SPDY/3.1 (raw header block), carrying benign fields plus one hostile ingredient: header names with CR LF / LF / space / colon / NUL / DEL / obs-text, values with CRLF / LF / CR / CRLFCRLF+second request / NUL / CTL / DEL / obs-text, and method / path / host pseudo-headers with embedded request lines; oracle = strict RFC 7230 reference parse of the backend byte stream: exactly one request consuming all bytes, then method/target/host/fields/body compared with what a harness filter saw bfe accept. Second family (byte-splice, c25bytes.go): requests carrying the usual proxy-chain fields (X-Forwarded-For/-Proto/-Host/-Port, X-Real-Ip, Cookie, User-Agent, Referer, Accept, Authorization, a custom field) with ONE hostile byte spliced at the start / middle / end of one position: Host (:authority, :host), the value of each of those fields, a header name, the path, the query, the method. Byte classes: bare CR, CR at the end (on HTTP/1 the wire carries CR CR LF), NUL, another CTL (0x01-0x08,0x0b,0x0c,0x0e-0x1f), DEL, obs-text (0x80-0xff), HTAB, SP; on HTTP/2 and SPDY also LF and CRLF. On HTTP/1 LF / CRLF are not generated: LF ends a line at the reader, it is message structure, not a byte of a value (likewise a header name starting with SP/HTAB is an obs-fold continuation, and on SPDY NUL is the separator of a value list). In the middle the rest of the ingredient is sometimes 'Injected: 1', so a reader taking the hostile byte as a line end sees an added field. Cells (frontend, position, class, place) are enumerated round-robin in a seed-dependent order; the seed picks the byte of a class, the offset, the method. Same oracle: a rejected request (nothing at the backend) is always fine; what is forwarded must be one well-formed request: CTLs / bare CR anywhere and obs-text outside field values (name, method) are not well-formed; obs-text, HTAB and SP inside a field value are (RFC 7230 3.2.6). One named exclusion: bytes >= 0x80 inside the request-target are judged only by byte equality with the accepted target, not as malformed (RFC 7230 3.1.1 only says SHOULD reject, 5.7.2 forbids a proxy to rewrite path/query). Host syntax beyond the field grammar is not judged. Non-trivial = hostile ingredient present and the request reached a backend; distinct = (frontend, hostile ingredient, method) resp. (frontend, position, class, place); the run is inconclusive if a (frontend, position, class) cell was never observed (counts per cell in byte_splice_cells)")
+	r.Assume("bytes >= 0x80 in a forwarded request-target are not counted as malformed (judged by equality with the accepted target only); counted in target_obs_text_forwarded_*")
 	bs := e2e.NewBackendSet()
 	defer bs.Close()
 	be := bs.New("b1", func(x *e2e.Exchange) e2e.Action {
@@ -282,37 +288,93 @@ func c25(r *vkit.Run) {
 		for i := 0; i < n; i++ {
 			cases = append(cases, c25Gen(r.Rng("case", i), i))
 		}
+		// byte-splice family: cells (frontend, position, class, place) enumerated round-robin
+		nb := r.N(1800, 60000)
+		if v := os.Getenv("VERIF_DEBUG_NB"); v != "" {
+			fmt.Sscan(v, &nb)
+		}
+		orders := c25Orders(r)
+		for j := 0; j < nb; j++ {
+			cases = append(cases, c25GenBytes(r.Rng("bytes", j), j, n, orders))
+		}
 	}
 	status := make([]string, len(cases))
 	vkit.Parallel(len(cases), 24, func(i int) { status[i] = cases[i].send(srv) })
 
-	// map backend connections to cases by the id marker in the raw bytes
+	// map backend connections to cases by the id marker in the raw bytes. A backend
+	// record is complete only when its connection has ended: settle (bounded) until
+	// every request that was answered 2xx has a finished record. This is quiescence,
+	// not a verdict: a record still missing afterwards is counted, not judged.
+	nOK := 0
+	for _, st := range status {
+		if c25Outcome(st) == "ok" {
+			nOK++
+		}
+	}
 	conns := be.Snapshot()
-	byID := map[string][]e2e.ConnRecord{}
-	for _, cr := range conns {
-		for _, c := range cases {
-			_ = c
+	for try := 0; try < 100; try++ {
+		done := 0
+		for _, cr := range conns {
+			if len(cr.Raw) > 0 {
+				done++
+			}
+		}
+		if done >= nOK {
 			break
 		}
-		raw := cr.Raw
-		if i := bytes.Index(raw, []byte("/c25/q")); i >= 0 {
-			j := bytes.IndexByte(raw[i+5:], 'z')
-			if j > 0 {
-				id := string(raw[i+5 : i+5+j+1])
-				byID[id] = append(byID[id], cr)
-			}
+		time.Sleep(50 * time.Millisecond)
+		conns = be.Snapshot()
+	}
+	byID := map[string][]e2e.ConnRecord{}
+	var unmarked []e2e.ConnRecord
+	for _, cr := range conns {
+		if id := c25Marker(cr.Raw); id != "" {
+			byID[id] = append(byID[id], cr)
+		} else if len(cr.Raw) > 0 {
+			r.Count("backend_connections_without_marker", 1)
+			unmarked = append(unmarked, cr)
 		}
 	}
 	mu.Lock()
 	defer mu.Unlock()
+	// unattributable backend bytes are still judged for well-formedness
+	for _, cr := range unmarked {
+		if _, n, rej := http1.ParseRequest(cr.Raw); rej != nil || n != len(cr.Raw) {
+			r.Violation("forwarded:not-well-formed:backend-bytes-without-request-marker", fmt.Sprintf("a backend connection received bytes that carry no request marker and are not one well-formed request: %q", clip(string(cr.Raw), 300)), map[string]interface{}{"backend_bytes": string(cr.Raw)})
+		}
+	}
+	nSampleLegacy := 0
+	cells := map[string]map[string]int64{} // byte-splice family: "frontend|position|class" -> outcome -> n
 	for i, c := range cases {
 		r.Count("frontend_"+c.Frontend+"_status_"+status[i], 1)
-		r.Count("by_"+c.Frontend+"_"+c.Hostile+"_"+status[i], 1)
 		crs := byID[c.ID]
 		key := c.Frontend + "|" + c.Hostile + "|" + strings.SplitN(c.Method, " ", 2)[0]
+		if c.Pos != "" {
+			key = c.Frontend + "|" + c.Hostile + "|" + c.Place
+			out := c25Outcome(status[i])
+			if len(crs) > 0 {
+				out = "fwd"
+			} else if out == "ok" {
+				out = "ok-without-backend-record"
+			}
+			ck := c.Frontend + "|" + c.Pos + "|" + c.Class
+			if cells[ck] == nil {
+				cells[ck] = map[string]int64{}
+			}
+			cells[ck][out]++
+			r.Count("bytes_"+c.Frontend+"_class_"+c.Class+"_"+out, 1)
+			r.Count("bytes_"+c.Frontend+"_pos_"+c.Pos+"_"+out, 1)
+			r.Count("bytes_"+c.Frontend+"_place_"+c.Place+"_"+out, 1)
+			r.Count("bytes_"+c.Frontend+"_"+out, 1)
+		} else {
+			r.Count("by_"+c.Frontend+"_"+c.Hostile+"_"+status[i], 1)
+		}
 		if len(crs) == 0 {
 			r.CaseS(key, false)
 			r.Count("rejected_or_not_forwarded_"+c.Frontend, 1)
+			if c25Outcome(status[i]) == "ok" {
+				r.Count("ok_status_without_backend_record", 1)
+			}
 			continue
 		}
 		r.CaseS(key, c.Hostile != "none")
@@ -325,7 +387,10 @@ func c25(r *vkit.Run) {
 		}
 		raw := crs[0].Raw
 		w["backend_bytes"] = string(raw)
-		req, n, rej := http1.ParseRequest(raw)
+		req, n, rej, obsTarget := c25ParseBackend(raw)
+		if obsTarget {
+			r.Count("target_obs_text_forwarded_"+c.Frontend+"_judged_by_equality_only", 1)
+		}
 		if rej != nil {
 			r.Violation("forwarded:not-well-formed:"+rej.Class+":"+sigp, fmt.Sprintf("backend byte stream rejected by the strict parser: %v", rej), w)
 			continue
@@ -354,7 +419,8 @@ func c25(r *vkit.Run) {
 			ck := bfe_http.CanonicalHeaderKey(f.Name)
 			switch ck {
 			case "Host":
-				if f.Value != acc.Host {
+				// OWS around a field value is not part of the value (RFC 7230 3.2.4)
+				if f.Value != acc.Host && f.Value != c25NormValue(acc.Host) {
 					r.Violation("forwarded:host-differs:"+sigp, fmt.Sprintf("backend Host %q, accepted %q", f.Value, acc.Host), w)
 				}
 				continue
@@ -385,8 +451,14 @@ func c25(r *vkit.Run) {
 		if string(req.Body) != c.Body && c.Hostile != "method-inject" {
 			r.Violation("forwarded:body-differs:"+sigp, fmt.Sprintf("backend body %q, client sent %q", clip(string(req.Body), 100), clip(c.Body, 100)), w)
 		}
+		// samples: half from the ingredient corpus, half from the byte-splice family
 		if r.WantSample() && c.Hostile != "none" {
-			r.Sample(w)
+			if c.Pos == "" && nSampleLegacy < 3 {
+				nSampleLegacy++
+				r.Sample(w)
+			} else if c.Pos != "" {
+				r.Sample(w)
+			}
 		}
 	}
 	for k, v := range e2e_panics(srv) {
@@ -394,9 +466,87 @@ func c25(r *vkit.Run) {
 			r.Violation("panic-counter:"+k, fmt.Sprintf("%s=%d", k, v), nil)
 		}
 	}
+	if r.Replay == "" {
+		r.Extra("byte_splice_cells", cells)
+		for _, fe := range []string{"h1", "h2", "spdy"} {
+			missing := 0
+			for _, p := range c25Positions() {
+				for _, cl := range c25Classes(fe) {
+					m := cells[fe+"|"+p+"|"+cl]
+					if m["fwd"]+m["rej"] == 0 {
+						missing++
+						if missing <= 3 {
+							r.Inconclusive(fmt.Sprintf("byte-splice cell never observed: frontend %s, position %s, class %s (%v)", fe, p, cl, m))
+						}
+					}
+				}
+			}
+			r.Count("bytes_cells_never_observed_"+fe, int64(missing))
+			// the family is supposed to reach both outcomes on every frontend
+			// (obs-text / HTAB / SP inside values are legal and forwarded; CTLs are not)
+			if r.Counter("bytes_"+fe+"_fwd") == 0 || r.Counter("bytes_"+fe+"_rej") == 0 {
+				r.Inconclusive("byte-splice family: frontend " + fe + " never reached both outcomes (forwarded and rejected)")
+			}
+		}
+	}
 	if r.Replay == "" && (r.Counter("forwarded_h1") == 0 || r.Counter("forwarded_h2") == 0 || r.Counter("forwarded_spdy") == 0) {
 		r.Inconclusive("a frontend never forwarded a request")
 	}
+}
+
+// c25ParseBackend is the strict reference parse with ONE named exclusion: bytes
+// >= 0x80 inside the request-target. RFC 3986 has no such bytes, so the strict
+// parser calls the request line invalid; but RFC 7230 only says a recipient
+// SHOULD answer 400 to such a request line (3.1.1) while a proxy MUST NOT rewrite
+// path and query of a target it forwards (5.7.2), so "accept and forward the
+// target unchanged" is a sanctioned behaviour, and such bytes can neither end the
+// line nor the target. They are therefore judged only by the equality check
+// (backend target == accepted target, byte for byte). The exclusion is applied
+// to the target span only (between the first and second SP of the first line):
+// obs-text in the method or version is still rejected.
+func c25ParseBackend(raw []byte) (req *http1.Request, n int, rej *http1.RejectError, obsTarget bool) {
+	req, n, rej = http1.ParseRequest(raw)
+	if rej == nil || rej.Class != http1.RequestLineTarget || rej.Offset >= len(raw) || raw[rej.Offset] < 0x80 {
+		return req, n, rej, false
+	}
+	eol := strings.Index(string(raw), "\r\n")
+	if eol < 0 {
+		return req, n, rej, false
+	}
+	s1 := strings.IndexByte(string(raw[:eol]), ' ')
+	if s1 < 0 {
+		return req, n, rej, false
+	}
+	s2 := strings.IndexByte(string(raw[s1+1:eol]), ' ')
+	if s2 < 0 {
+		return req, n, rej, false
+	}
+	s2 += s1 + 1
+	cp := append([]byte(nil), raw...)
+	for i := s1 + 1; i < s2; i++ {
+		if cp[i] >= 0x80 {
+			cp[i] = 'x'
+		}
+	}
+	req, n, rej = http1.ParseRequest(cp)
+	if rej == nil {
+		req.Target = string(raw[s1+1 : s2])
+	}
+	return req, n, rej, true
+}
+
+var c25MarkerRe = regexp.MustCompile(`/c25/(q[0-9]+z)|(?i:\nx-id:[ \t]*)(q[0-9]+z)`)
+
+// c25Marker finds the request id in backend bytes: in the target or in the X-Id field.
+func c25Marker(raw []byte) string {
+	m := c25MarkerRe.FindSubmatch(raw)
+	if m == nil {
+		return ""
+	}
+	if len(m[1]) > 0 {
+		return string(m[1])
+	}
+	return string(m[2])
 }
 
 func clip(s string, n int) string {
